@@ -166,3 +166,75 @@ func TestRegressStaleUnknownCountThenTimedOutAfterAppend(t *testing.T) {
 		t.Errorf("record B: promise reported success but the record is in the log %d times", inLog)
 	}
 }
+
+// TestRegressSkippedPipelinedBatchThenErrorAtRetryLimit replays the third shape: two produce
+// requests for one partition are in flight (batches A, B). A is appended but answered
+// NOT_ENOUGH_REPLICAS_AFTER_APPEND, so the client rewinds and will resend both; B's own
+// response (appended, success) is skipped because B is not the first batch of the chain. A's
+// resend succeeds (duplicate), B's resend is answered NOT_LEADER_FOR_PARTITION with
+// RecordRetries(1) exhausted: B was failed although the broker had appended it.
+func TestRegressSkippedPipelinedBatchThenErrorAtRetryLimit(t *testing.T) {
+	var errA, errB error
+	inLogB, nproduce := 0, 0
+	bubble.Run(t, nil, func(e *bubble.Env) {
+		e.StartCluster(bubble.ClusterOpts{Brokers: 1, Topics: map[string]int32{"t0": 1}})
+		e.Cluster.ControlKey(0, func(kreq kmsg.Request) (kmsg.Response, error, bool) {
+			e.Cluster.KeepControl()
+			nproduce++
+			if nproduce != 5 { // warm-up, A, B, A again, then B again
+				return nil, nil, false
+			}
+			req := kreq.(*kmsg.ProduceRequest)
+			resp := req.ResponseKind().(*kmsg.ProduceResponse)
+			for _, t := range req.Topics {
+				rt := kmsg.NewProduceResponseTopic()
+				rt.Topic, rt.TopicID = t.Topic, t.TopicID
+				for _, p := range t.Partitions {
+					rp := kmsg.NewProduceResponseTopicPartition()
+					rp.Partition, rp.ErrorCode, rp.BaseOffset = p.Partition, kerr.NotLeaderForPartition.Code, -1
+					rt.Partitions = append(rt.Partitions, rp)
+				}
+				resp.Topics = append(resp.Topics, rt)
+			}
+			return resp, nil, true
+		})
+		// A's response (second produce request) is held for 50 ms and rewritten after the append
+		e.Net.AddRule(bubble.Rule{Key: 0, Nth: 1, Act: bubble.RewriteResponse, Delay: 50 * time.Millisecond, Code: kerr.NotEnoughReplicasAfterAppend.Code, Rewrite: func(ri *bubble.ReqInfo, body []byte) []byte {
+			return wl.RewriteProduceErr(ri.Version, body, kerr.NotEnoughReplicasAfterAppend.Code)
+		}})
+		cl := e.NewClient(kgo.ProducerLinger(0), kgo.RecordRetries(1))
+		ctx, cancel := context.WithTimeout(context.Background(), 2*time.Minute)
+		defer cancel()
+		// warm-up: after the first response the client allows several produce requests in flight
+		if err := cl.ProduceSync(ctx, &kgo.Record{Topic: "t0", Partition: 0, Value: []byte("regress-W")}).FirstErr(); err != nil {
+			panic("VERIF-INFRA: warm-up produce: " + err.Error())
+		}
+		done := make(chan struct{}, 2)
+		cl.Produce(ctx, &kgo.Record{Topic: "t0", Partition: 0, Value: []byte("regress-A")}, func(_ *kgo.Record, err error) { errA = err; done <- struct{}{} })
+		time.Sleep(10 * time.Millisecond)
+		cl.Produce(ctx, &kgo.Record{Topic: "t0", Partition: 0, Value: []byte("regress-B")}, func(_ *kgo.Record, err error) { errB = err; done <- struct{}{} })
+		<-done
+		<-done
+		recs, _, err := e.ReadLog(e.RawClient(), "t0", 0, 0)
+		if err != nil {
+			panic("VERIF-INFRA: raw log read: " + err.Error())
+		}
+		for _, r := range recs {
+			if string(r.Value) == "regress-B" {
+				inLogB++
+			}
+		}
+	})
+	ev.Case("regress-skipped-pipelined-batch-then-error-at-retry-limit", true)
+	ev.Class("regression-replays")
+	if nproduce < 5 {
+		t.Errorf("history not reached: %d produce requests (errA=%v errB=%v)", nproduce, errA, errB)
+		return
+	}
+	if errB != nil && inLogB != 0 {
+		t.Errorf("record B: promise reported %q but the record is in the log %d time(s)", errB, inLogB)
+	}
+	if errB == nil && inLogB != 1 {
+		t.Errorf("record B: promise reported success but the record is in the log %d times", inLogB)
+	}
+}
